@@ -191,6 +191,9 @@ func C17(ctx *core.Ctx) {
 		}
 	}
 
+	// read locks are not reentrant: an accessor called with the lock held queues behind a waiting writer
+	noDoubleAcquire(ctx, r, "C17.R2", "FContextImpl")
+
 	// ---- R3b the context (and its mutex) is never copied as a value ------------------
 	{
 		n := 0
